@@ -1,7 +1,53 @@
+import MesonModel.Lang.Sexp
 import Driver.Proto
-/- driver commands of area `lang` (stub until the area is built) -/
-namespace Driver.Lang
+/-
+Driver commands of area `lang` (lexer + parser + raw printer model).
 
-def handle (cmd : String) (fs : List String) : String := "bad-op"
+  lex   <code>            -> `<tok> <tok> …` (+ ` !<lineno>:<colno>` when the lexer raises), see `tokS`
+  parse <code>|<names>    -> `OK|<dropped-not count>|<emit>|<sexp>`  (`<emit>` is `=` when the raw print equals
+                             the input, else the printed text as a `strS` string)  or  `ERR:<class>[:line:col]`
+  tree  <code>|<names>    -> canonical S-expression of the parsed tree (see MesonModel/Lang/Sexp.lean) or `ERR:…`
+  emit  <code>|<names>    -> raw-printed text (code points) or `ERR:…`
+
+`<names>` (optional) resolves `\N{name}` escapes: items `<name code points>=<code point>` separated by `,`.
+-/
+namespace Driver.Lang
+open MesonModel.Lang Driver
+
+def parseNames (f : String) : List (Str × Nat) :=
+  if f.trimAscii.isEmpty then [] else
+  (f.splitOn ",").filterMap (fun item =>
+    match item.splitOn "=" with
+    | [n, v] => (v.trimAscii.toString.toNat?).map (fun cp => (decodeStr n, cp))
+    | _ => none)
+
+def lexS (code : Str) : String :=
+  let r := lex code
+  let ts := " ".intercalate (r.toks.map tokS)
+  match r.err with
+  | some (l, c) => ts ++ s!" !{l}:{c}"
+  | none => if r.fuelOut then ts ++ " !FUEL" else ts
+
+def parseS (code : Str) (names : List (Str × Nat)) : String :=
+  match parseWith names code with
+  | .error e => errS e
+  | .ok r =>
+    let out := emit r.tree
+    let e := if out == code then "=" else strS out
+    s!"OK|{r.lossy}|{e}|{sexp r.tree}"
+
+def handle (cmd : String) (fs : List String) : String :=
+  let code := decodeStr (fs.headD "")
+  let names := parseNames ((fs.drop 1).headD "")
+  match cmd with
+  | "lex" => lexS code
+  | "parse" => parseS code names
+  | "tree" => match parseWith names code with
+    | .error e => errS e
+    | .ok r => sexp r.tree
+  | "emit" => match parseWith names code with
+    | .error e => errS e
+    | .ok r => encodeStr (emit r.tree)
+  | _ => "bad-op"
 
 end Driver.Lang
